@@ -186,10 +186,10 @@ theorem C04_unpickle_refused_when_held (s : State) (p : Nat) (c : Cls) (k : Id) 
       have hsg := aget_eq_some_of_fun (hi.funS c) a
       have hft : Extracted.Cache.tryGetFallsThrough = true := rfl
       cases hg' : aget k (s.fac c).weak with
-      | none => simp [hdc, hsg]
+      | none => simp [hdc, hsg, hg']
       | some w =>
         have := hi.disj c k h0 w a (aget_some_mem hg')
-        simp [this, hft, hdc, hsg]
+        simp [this, hft, hdc, hsg, hg']
     · simp only [aget_eq_some_of_fun (hi.funW c) a, hd, Bool.false_eq_true, if_false]
   rw [this]
 
